@@ -84,10 +84,10 @@ PROPS = {
         rule=BLOCK_RULE, assumptions=BLOCK_ASSUME + ['bank keeps supply = sum of balances (x/bank invariant, trusted); per-tx supply and balance deltas are reconstructed from the bank events of each ExecTxResult'],
     ),
     'C05': dict(
-        lean_modules=['Model.FeeMarket', 'Model.Block', 'Properties.C05', 'Facts.Block'],
+        lean_modules=['Model.FeeMarket', 'Model.Block', 'Properties.C05', 'Facts.Block', 'Facts.C09'],
         facts=['*'],
         theorems=['C05_charge', 'C05_charge_self', 'C05_rejected_free', 'C05_refund_cap', 'C05_bounds', 'C05_result_eq_receipt',
-                  'C05_collector_gain', 'C05_one_price', 'stepEth_cases', 'fact_refund_quotient', 'fact_min_gas', 'fact_gas_meter_reset'],
+                  'C05_collector_gain', 'C05_one_price', 'stepEth_cases', 'fact_refund_quotient', 'fact_min_gas', 'fact_gas_meter_reset', 'fact_one_base_fee'],
         engines=[dict(name='block', test='TestEngineBlock', quick=500, thorough=6000, thorough_seeds=3)],
         rule=BLOCK_RULE, assumptions=BLOCK_ASSUME + ['C05_bounds lower bound assumes intrinsic + refundCounter <= gas used before refund (geth gas table: every refunded unit was paid for); E-block checks intrinsic <= gasUsed on every committed tx'],
     ),
@@ -98,7 +98,7 @@ PROPS = {
                   'C07_handler_unreachable', 'C07_cosmos_lane', 'fact_nonce_flag_used', 'fact_ante_order', 'fact_ante_chain', 'fact_disabled_list'],
         engines=[dict(name='block', test='TestEngineBlock', quick=500, thorough=6000, thorough_seeds=3),
                  dict(name='ante', test='TestEngineAnte', quick=250, thorough=3000, thorough_seeds=2),
-                 dict(name='crypto', test='TestEngineCrypto', quick=600, thorough=6000, thorough_seeds=2, no_model=True)],
+                 dict(name='crypto', test='TestEngineCrypto', quick=600, thorough=6000, thorough_seeds=2, no_model=True, own_oracles_only=True)],
         rule=BLOCK_RULE + '; E-crypto (oracle C06-signed-cosmos-tx-replayable only; its correspondence is judged by C19): for every real sign document, the signature and the EIP-712 rendering of the amino and of the DIRECT-mode protobuf document must not stand for the same body at the next sequence, the next account number, another chain epoch or revision',
         assumptions=BLOCK_ASSUME + ['Cosmos-lane signature verification is the SDK decorator (trusted); only its sequence effect is modelled; that an eth_secp256k1 signature binds sequence, account number and chain id in both sign modes is observed on the real VerifySignature (E-crypto) and is C19 for the rest'],
     ),
@@ -118,7 +118,7 @@ PROPS = {
                   'execNode_spec', 'execList_spec', 'framed_run', 'revertGo_frame', 'revert_ok', 'snapshot_ok', 'upd_ok'],
         engines=[dict(name='statedb', test='TestEngineStatedb', quick=6000, thorough=120000, thorough_seeds=3),
                  dict(name='calltree', test='TestEngineCalltree', quick=300, thorough=6000, thorough_seeds=2),
-                 dict(name='block', test='TestEngineBlock', quick=250, thorough=3000, thorough_seeds=2, no_model=True)],   # oracle C03-vmerr-leaves-more-than-the-fee only: real transactions that end with a VM error
+                 dict(name='block', test='TestEngineBlock', quick=250, thorough=3000, thorough_seeds=2, no_model=True, own_oracles_only=True)],   # oracle C03-vmerr-leaves-more-than-the-fee only: real transactions that end with a VM error
         rule='random cStateDb API sequences (19 op kinds incl. precompile-style bank/allowance writes through GetCurrentContext, nested snapshot/revert incl. invalid ids, commit) on a real chain context with base/contract/module/vesting fixtures; full getter dump after every op; non-trivial = a real op line (not world set-up); distinct by (op line) hash',
         assumptions=['cachekv CacheContext is a value copy of its parent for reads and isolates writes until write() (SDK contract; exercised by every revert in E-statedb)',
                      'the interpreter uses the StateDB only as snapshot; body; revert-on-failure (evm.Call/Create) — call-tree theorem; arbitrary API sequences are covered by C03_revert_exact'],
@@ -129,7 +129,7 @@ PROPS = {
         theorems=['C09_unchanged_at_target', 'C09_increase_exact', 'C09_decrease_exact', 'C09_increase_strict',
                   'C09_decrease_le', 'C09_ge_floor_min', 'C09_total_no_divzero', 'C09_total', 'C09_keeper_exact',
                   'C09_zero_target_keeps', 'C09_admission', 'C09_admission_implies_precheck',
-                  'fact_elasticity', 'fact_changeDenom', 'fact_london_always', 'fact_feemarket_endblock_last', 'fact_feemarket_after_gov', 'fact_maxgas_guard', 'fact_basefee_guards'],
+                  'fact_elasticity', 'fact_changeDenom', 'fact_london_always', 'fact_feemarket_endblock_last', 'fact_feemarket_after_gov', 'fact_maxgas_guard', 'fact_basefee_guards', 'fact_one_base_fee'],
         engines=[dict(name='feemarket', test='TestEngineFeemarket', quick=20000, thorough=400000, thorough_seeds=3, functional=True),
                  dict(name='block', test='TestEngineBlock', quick=500, thorough=6000, thorough_seeds=2)],
         rule='tuples (baseFee, MaxGas|nil, gasConsumed, minGasPrice mantissa) drawn from edge classes (0,1,2^63,2^256-1, around target/limit, MaxGas in {-1,0,1,2,3,..}) and uniform bit-lengths; non-trivial = baseFee>0 and gasConsumed>0; distinct by op line hash',
@@ -232,7 +232,7 @@ PROPS['C20'] = dict(
     theorems=['C20_rejected_is_noop', 'C20_ante_panic_charges_block_gas_only', 'C20_dropped_is_noop', 'C20_isolation', 'C20_isolation_replace', 'runItems_append',
               'C09_total', 'C09_total_no_divzero', 'C09_zero_target_keeps', 'C13_endBlock_total', 'C13_inv_block',
               'C20_no_send_on_closed', 'inv_step', 'inv_run', 'C20_original_crashes', 'C20_original_drops', 'C20_lock_needed', 'C20_index_needed',
-              'C20_filter_total', 'C20_filterLogs_total', 'C20_guard_needed', 'topicLoop_total', 'fact_filterlogs_guards', 'fact_basefee_guards', 'fact_maxgas_guard', 'fact_block_panic_sites', 'fact_consume_locks_across_send', 'fact_install_shape', 'fact_uninstall_shape', 'fact_join_indexes', 'fact_context_guarded'],
+              'C20_filter_total', 'C20_filterLogs_total', 'C20_guard_needed', 'topicLoop_total', 'fact_filterlogs_guards', 'fact_basefee_guards', 'fact_one_base_fee', 'fact_maxgas_guard', 'fact_block_panic_sites', 'fact_consume_locks_across_send', 'fact_install_shape', 'fact_uninstall_shape', 'fact_join_indexes', 'fact_context_guarded'],
     engines=[dict(name='crash', test='TestEngineCrash', quick=250, thorough=600, thorough_seeds=3, no_model=True),
              dict(name='conc', test='TestEngineConc', quick=3, thorough=12, thorough_seeds=2, no_model=True, race_in_thorough=True),
              dict(name='logfilter', test='TestEngineLogfilter', quick=3000, thorough=200000, thorough_seeds=3)],
@@ -263,7 +263,7 @@ PROPS['C15'] = dict(
               'C15_locked_never_spent', 'C15_subBalance_respects_lock', 'destroyAccount_ok', 'burnAll_keeps', 'destroyAccount_others',
               'protected_not_destroyable', 'fact_destroy_guard_block_time', 'fact_destroy_removes_everything', 'fact_commit_sorted'],
     engines=[dict(name='statedb', test='TestEngineStatedb', quick=6000, thorough=120000, thorough_seeds=3),
-             dict(name='block', test='TestEngineBlock', quick=250, thorough=3000, thorough_seeds=2, no_model=True)],   # oracle C15-sender-retyped only: a vesting account among the senders of real blocks
+             dict(name='block', test='TestEngineBlock', quick=250, thorough=3000, thorough_seeds=2, no_model=True, own_oracles_only=True)],   # oracle C15-sender-retyped only: a vesting account among the senders of real blocks
     rule='random cStateDb API sequences on a context whose block time lies in the past (so that a wall-clock guard would disagree with the model), over fixtures: fee-collector and EVM module accounts, delayed vesting accounts (unexpired funded, expired funded, end time between block time and wall clock), base / contract / storage-only / balance-only / empty accounts with two denominations; ops include touch (zero-value AddBalance), pay, CreateAccount collision, Suicide, Selfdestruct6780, commit with and without deleteEmpty; full dump of accounts, balances, code hashes, storage after every op; non-trivial = a real op line; distinct by op-line hash',
     assumptions=['x/bank enforces vesting locks in SendCoins (trusted SDK code; exercised: a SubBalance beyond the spendable amount panics)',
                  'the interpreter reaches accounts only through the StateDB API the engine drives (touch, Transfer, CreateAccount, Suicide)',
